@@ -272,12 +272,16 @@ def adm_family(draw, max_sites=3):
             b.edge(sw, "has", ns)
             for tp in tps:
                 b.edge(ns, "connects", tp)
+        own = False
         for i in range(len(shared) - 1):                 # inter-site links: chain + sometimes a second link
             for k in range(draw(st.integers(0, min(len(shared[i][2]), len(shared[i + 1][2]))))):
+                own = True
                 lnk = b.node(f"isl{i}-{k}", "Link", "L2Path", f"isl{i}-{k}", extra={"Layer": "L2"})
                 b.edge(shared[i][2][k], "connects", lnk)
                 b.edge(lnk, "connects", shared[i + 1][2][k])
-        if draw(st.integers(0, 2)) == 0:                 # a facility hanging off the first switch (network-owned)
+        # a facility hanging off the first switch (network-owned); a network model without any element of its
+        # own is kept rare
+        if draw(st.integers(0, 2)) == 0 or (not own and draw(st.integers(0, 9)) > 0):
             sw, ns, tps, _ = shared[0]
             fn = b.node("net-fac", "NetworkNode", "Facility", "DTN", kind="Switch", site="RENC")
             fns = b.node("net-fac-ns", "NetworkService", "VLAN", "DTN-ns", extra={"Layer": "L2"})
@@ -325,19 +329,23 @@ def build(desc, importer, cls=None, gid=None):
     return cls(graph_id=gid, importer=importer)
 
 
-def canon_of_id(storage, graph_id):
-    """({NodeID: (Class, props without GraphID/NodeID/Class)}, {frozenset{a,b}: (Class, props)}) or ({}, {})"""
+def canon_of_id(storage, graph_id, dups=None):
+    """({NodeID: (Class, props without GraphID/NodeID/Class)}, {frozenset{a,b}: (Class, props)}) or ({}, {}).
+    Two nodes with one NodeID in a graph: appended to `dups` when given, otherwise an AssertionError."""
     g = storage.extract_graph(graph_id)
     if g is None:
         return {}, {}
     nodes, edges = {}, {}
-    for _, d in g.nodes(data=True):
+    for _, d in sorted(g.nodes(data=True), key=lambda x: x[0]):
         p = dict(d)
         nid = p.pop("NodeID")
         p.pop("GraphID", None)
         c = p.pop("Class", None)
         if nid in nodes:
-            raise AssertionError(f"duplicate NodeID {nid} in graph {graph_id}")
+            if dups is None:
+                raise AssertionError(f"duplicate NodeID {nid} in graph {graph_id}")
+            dups.append(nid)
+            continue
         nodes[nid] = (c, p)
     for a, z, d in g.edges(data=True):
         p = dict(d)
@@ -346,8 +354,8 @@ def canon_of_id(storage, graph_id):
     return nodes, edges
 
 
-def canon(graph):
-    return canon_of_id(graph.storage, graph.graph_id)
+def canon(graph, dups=None):
+    return canon_of_id(graph.storage, graph.graph_id, dups)
 
 
 def canon_of_desc(desc):
